@@ -180,6 +180,21 @@ def step (s : DState) : List String → DState × String
           | .noCapability c => "noCapability\t" ++ enc c
           | .crash e => "crash\t" ++ encErr e)
     | _, _, _, _, _, _ => (s, "bad-op")
+  | ["cfgmulti", p, ch, sh, chans, partsL, partsLowerL, nons] =>
+    -- one parts / partsLower list per listed channel (same order as `chans`)
+    match dec p, decOpt ch, decBool sh, decList chans, decPaths partsL, decPaths partsLowerL, decPaths nons with
+    | some p, some ch, some sh, some chans, some partsL, some partsLowerL, some nons =>
+      let tbl := chans.zip (partsL.zip partsLowerL)
+      let check := fun c => match tbl.lookup c with
+        | some (pa, pl) => checkCanSetValue s.db s.now { pfx := p, channel := ch } sh (fun path => !nons.contains path) pa pl
+        | none => CfgOut.crash .key
+      let r := setChannels check chans
+      (s, encList r.1 ++ "\t" ++ (match r.2 with
+          | .pass => "pass"
+          | .readOnly => "readOnly"
+          | .noCapability c => "noCapability\t" ++ enc c
+          | .crash e => "crash\t" ++ encErr e))
+    | _, _, _, _, _, _, _ => (s, "bad-op")
   | ["setdefaults", allow, caps] =>
     match decBool allow, decList caps with
     | some allow, some caps =>
